@@ -197,11 +197,16 @@ func (p *c13Bytes) Run(ix int) ([]verifFinding, bool) {
 // ---------------------------------------------------------------------------
 // part "sexp": all strings of length ≤ 7 over { ( ) " # a F space } → s-expression / key-file readers
 
-type c13Sexp struct{}
+type c13Sexp struct{ quick bool }
 
 var c13SexpAlpha = []byte{'(', ')', '"', '#', 'a', 'F', ' '}
 
-func (p *c13Sexp) Count() int { return c13EnumCount(7, 7) }
+func (p *c13Sexp) Count() int {
+	if p.quick {
+		return c13EnumCount(7, 6) // the enumeration is ordered by length: the quick tier stops one character earlier
+	}
+	return c13EnumCount(7, 7)
+}
 func (p *c13Sexp) Describe(ix int) string {
 	return fmt.Sprintf("s-expression readers on %q", c13EnumString(ix, c13SexpAlpha, 7))
 }
@@ -1008,17 +1013,17 @@ func c13BuildPart(name string, seed int64, tier string) c13Part {
 	case "bytes":
 		return &c13Bytes{}
 	case "sexp":
-		return &c13Sexp{}
+		return &c13Sexp{quick: tier == "quick"}
 	case "mut":
 		return newC13Mut(seed)
 	case "recv2":
 		if tier == "quick" {
-			return newC13Recv(seed, 2, true, 6)
+			return newC13Recv(seed, 2, true, 8)
 		}
 		return newC13Recv(seed, 2, false, 1)
 	case "recv3":
 		if tier == "quick" {
-			return newC13Recv(seed, 3, true, 3)
+			return newC13Recv(seed, 3, true, 4)
 		}
 		return newC13Recv(seed, 3, false, 1)
 	case "rand":
@@ -1293,7 +1298,7 @@ func init() {
 			return fs
 		},
 		Run: func(r *verifReport) {
-			r.Rule = "exhaustive bounded input enumeration, every call under recover with heap allocation measured (bound 1 MiB + 4096·len): (bytes) all byte strings ≤ 6 over {00,01,7f,80,ff} into every binary parser; (sexp) all strings ≤ 7 over ( ) \" # a F space into the s-expression and key-file readers (also behind valid prefixes); (mut) every truncation, single deletion and word/char substitution of valid key and MPI serialisations and of a libotr key file; (recv) 18 conversation states (two of them key-less conversations talked into an exchange) × {every raw and base64 truncation and length-word substitution of every genuine message kind, ?OTR marker variants ≤ 9 chars, fragment header variants, sizeable pieces continuing a fragment train whose announced total is 65535, single-piece trains whose content is again OTR-shaped (fragment, query, error, encoded message), tagged plaintext with every 8-character blank/tab group behind the whitespace tag base, authenticated-but-malicious TLV payloads incl. every ordered pair (thorough: triple) of the ten TLV kinds in one message} into Receive, followed by a usability probe (End, fresh exchange, text both ways) whenever the state changed; (rand) every index k at which the k-th read of Conversation.Rand fails or is short, then usability with a healed source. Non-trivial = accepted by a parser / changed state or produced an error or event"
+			r.Rule = "exhaustive bounded input enumeration, every call under recover with heap allocation measured (bound 1 MiB + 4096·len): (bytes) all byte strings ≤ 6 over {00,01,7f,80,ff} into every binary parser; (sexp) all strings ≤ 7 (quick: 6) over ( ) \" # a F space into the s-expression and key-file readers (also behind valid prefixes); (mut) every truncation, single deletion and word/char substitution of valid key and MPI serialisations and of a libotr key file; (recv) 18 conversation states (two of them key-less conversations talked into an exchange) × {every raw and base64 truncation and length-word substitution of every genuine message kind, ?OTR marker variants ≤ 9 chars, fragment header variants, sizeable pieces continuing a fragment train whose announced total is 65535, single-piece trains whose content is again OTR-shaped (fragment, query, error, encoded message), tagged plaintext with every 8-character blank/tab group behind the whitespace tag base, authenticated-but-malicious TLV payloads incl. every ordered pair (thorough: triple) of the ten TLV kinds in one message} into Receive, followed by a usability probe (End, fresh exchange, text both ways) whenever the state changed; (rand) every index k at which the k-th read of Conversation.Rand fails or is short, then usability with a healed source. Non-trivial = accepted by a parser / changed state or produced an error or event"
 			r.Assumptions = []string{"workers run with RLIMIT_AS = 6 GiB; a worker that dies or gives no sign of life for 45 s (it reports its position every second) is isolated to the single case and confirmed on two further isolated runs before it is reported", "allocation is read from runtime/metrics /gc/heap/allocs:bytes around each call"}
 			for _, part := range []string{"bytes", "sexp", "mut", "recv3", "recv2", "rand"} {
 				p := c13BuildPart(part, r.Seed, r.Tier)
